@@ -43,9 +43,14 @@ Definition base_addr (n : net) : addr := mkAddr (n_fam n) (n_base n).
 Definition is_reserved (tbl : list net) (a : addr) : bool :=
   negb (is_global_unicast a) || existsb (fun t => contains t a) tbl.
 
+(* the first address of the range: the stated address with the bits outside the mask cleared (IP.Mask).  An iPAddress
+   name constraint is address||mask and need not have them cleared. *)
+Definition first_addr (n : net) : addr :=
+  mkAddr (n_fam n) (n_base n / 2 ^ (width (n_fam n) - n_len n) * 2 ^ (width (n_fam n) - n_len n)).
+
 (* util.IntersectsIANAReserved *)
 Definition intersects (tbl : list net) (n : net) : bool :=
-  negb (is_global_unicast (base_addr n)) ||
+  negb (is_global_unicast (base_addr n)) || negb (is_global_unicast (first_addr n)) ||
   existsb (fun t => contains t (base_addr n) || contains n (base_addr t)) tbl.
 
 (* B inside A *)
@@ -237,45 +242,60 @@ Proof.
     apply existsb_exists. exists t. auto.
 Qed.
 
-Lemma canonical_zero : forall a v, canonical a -> v < 2 ->
-  (v = 1 -> width (n_fam a) - n_len a <> 0) ->
-  v / 2 ^ (width (n_fam a) - n_len a) = n_base a / 2 ^ (width (n_fam a) - n_len a) ->
-  n_base a = 0.
+Lemma first_addr_ok : forall a, net_ok a -> addr_ok (first_addr a).
 Proof.
-  intros a v Hc Hv Hk E. unfold canonical in Hc.
-  set (k := width (n_fam a) - n_len a) in *.
+  intros a [_ Hb]. unfold addr_ok, first_addr. cbn [a_fam a_val].
+  set (k := width (n_fam a) - n_len a).
   assert (Hnz : 2 ^ k <> 0) by (apply N.pow_nonzero; lia).
-  rewrite (N.div_mod (n_base a) (2 ^ k) Hnz). rewrite Hc, <- E.
+  pose proof (N.mul_div_le (n_base a) (2 ^ k) Hnz) as H. lia.
+Qed.
+
+Lemma contains_first : forall a, contains a (first_addr a) = true.
+Proof.
+  intros a. apply contains_iff. unfold first_addr. cbn [a_fam a_val]. split; [reflexivity|].
+  apply N.div_mul. apply N.pow_nonzero. lia.
+Qed.
+
+(* a range that holds :: starts at :: *)
+Lemma first_zero : forall a v, v < 2 -> (v = 1 -> width (n_fam a) - n_len a <> 0) ->
+  v / 2 ^ (width (n_fam a) - n_len a) = n_base a / 2 ^ (width (n_fam a) - n_len a) ->
+  a_val (first_addr a) = 0.
+Proof.
+  intros a v Hv Hk E. unfold first_addr. cbn [a_val].
+  set (k := width (n_fam a) - n_len a) in *.
   assert (Hz : v / 2 ^ k = 0).
   { apply N.div_small.
     destruct (N.eq_dec v 1) as [H1|H1].
     - specialize (Hk H1). subst v. apply N.pow_gt_1; lia.
-    - assert (v = 0) by lia. subst v. lia. }
-  rewrite Hz. lia.
+    - assert (v = 0) by lia. subst v. apply N.neq_0_lt_0. apply N.pow_nonzero. lia. }
+  rewrite <- E, Hz. reflexivity.
 Qed.
 
-(* completeness: a canonical network containing a reserved address intersects reserved space *)
+(* completeness: a network containing a reserved address intersects reserved space - whether or not its stated address
+   is its first address *)
 Theorem intersects_complete : forall tbl a x,
-  table_wf tbl = true -> table_closed tbl = true -> net_ok a -> canonical a -> addr_ok x ->
+  table_wf tbl = true -> table_closed tbl = true -> net_ok a -> addr_ok x ->
   contains a x = true -> is_reserved tbl x = true -> intersects tbl a = true.
 Proof.
-  intros tbl a x Hwf Hcl Ha Hca Hx Hax Hres.
+  intros tbl a x Hwf Hcl Ha Hx Hax Hres.
   unfold is_reserved in Hres. apply orb_true_iff in Hres. destruct Hres as [Hng|Hex].
   - apply negb_true_iff in Hng. apply (not_global_unicast_iff x Hx) in Hng.
     destruct Hng as [H0|[H1|Hc]].
     + subst x. apply contains_iff in Hax. cbn [a_fam a_val] in Hax. destruct Hax as [Fa Ea].
-      assert (Hb : n_base a = 0).
-      { apply (canonical_zero a 0 Hca); [lia|intros; discriminate|exact Ea]. }
-      unfold intersects. apply orb_true_iff. left.
-      unfold base_addr. rewrite Fa, Hb. vm_compute. reflexivity.
+      assert (Hb : a_val (first_addr a) = 0).
+      { apply (first_zero a 0); [lia|intros; discriminate|exact Ea]. }
+      unfold intersects. apply orb_true_iff. left. apply orb_true_iff. right.
+      unfold first_addr in *. cbn [a_val] in Hb. rewrite Fa in *. rewrite Hb. vm_compute. reflexivity.
     + subst x. apply contains_iff in Hax. cbn [a_fam a_val] in Hax. destruct Hax as [Fa Ea].
-      unfold intersects. apply orb_true_iff. left. unfold base_addr. rewrite Fa.
+      unfold intersects. apply orb_true_iff. left.
       destruct (N.eq_dec (width (n_fam a) - n_len a) 0) as [Hk|Hk].
-      * rewrite Hk in Ea. change (2 ^ 0) with 1 in Ea. rewrite !N.div_1_r in Ea.
+      * apply orb_true_iff. left. unfold base_addr. rewrite Fa.
+        rewrite Hk in Ea. change (2 ^ 0) with 1 in Ea. rewrite !N.div_1_r in Ea.
         rewrite <- Ea. vm_compute. reflexivity.
-      * assert (Hb : n_base a = 0).
-        { apply (canonical_zero a 1 Hca); [lia|intros; exact Hk|exact Ea]. }
-        rewrite Hb. vm_compute. reflexivity.
+      * assert (Hb : a_val (first_addr a) = 0).
+        { apply (first_zero a 1); [lia|intros; exact Hk|exact Ea]. }
+        apply orb_true_iff. right.
+        unfold first_addr in *. cbn [a_val] in Hb. rewrite Fa in *. rewrite Hb. vm_compute. reflexivity.
     + apply existsb_exists in Hc. destruct Hc as [c [Hcin Hcx]].
       unfold table_closed in Hcl. rewrite forallb_forall in Hcl. specialize (Hcl c Hcin).
       apply existsb_exists in Hcl. destruct Hcl as [t [Htin Hs]].
@@ -294,8 +314,11 @@ Lemma intersects_sound_aux : forall tbl a,
 Proof.
   intros tbl a Hwf Ha Hi. unfold intersects in Hi.
   apply orb_true_iff in Hi. destruct Hi as [Hng|Hex].
-  - exists (base_addr a). split; [apply base_ok; exact Ha|]. split; [apply contains_base|].
-    unfold is_reserved. rewrite Hng. reflexivity.
+  - apply orb_true_iff in Hng. destruct Hng as [Hng|Hng].
+    + exists (base_addr a). split; [apply base_ok; exact Ha|]. split; [apply contains_base|].
+      unfold is_reserved. rewrite Hng. reflexivity.
+    + exists (first_addr a). split; [apply first_addr_ok; exact Ha|]. split; [apply contains_first|].
+      unfold is_reserved. rewrite Hng. reflexivity.
   - apply existsb_exists in Hex. destruct Hex as [t [Htin Hor]].
     destruct (wf_ok tbl t Hwf Htin) as [Ht _].
     apply orb_true_iff in Hor. destruct Hor as [H|H].
@@ -307,10 +330,10 @@ Qed.
 
 (* monotonicity under super-nets *)
 Theorem intersects_monotone : forall tbl a b,
-  table_wf tbl = true -> table_closed tbl = true -> net_ok a -> net_ok b -> canonical a -> canonical b ->
+  table_wf tbl = true -> table_closed tbl = true -> net_ok a -> net_ok b ->
   subnet b a = true -> intersects tbl b = true -> intersects tbl a = true.
 Proof.
-  intros tbl a b Hwf Hcl Ha Hb Hca Hcb Hs Hi.
+  intros tbl a b Hwf Hcl Ha Hb Hs Hi.
   destruct (intersects_sound_aux tbl b Hwf Hb Hi) as [y [Hy [Hby Hry]]].
   apply (intersects_complete tbl a y); try assumption.
   apply (subnet_contains b a y); assumption.
@@ -322,7 +345,10 @@ Theorem intersects_single : forall tbl x,
   intersects tbl (mkNet (a_fam x) (a_val x) (width (a_fam x))) = is_reserved tbl x.
 Proof.
   intros tbl [f v] Hwf Hx. cbn [a_fam a_val]. unfold intersects, is_reserved.
-  cbn [base_addr n_fam n_base]. f_equal.
+  assert (Hf : first_addr (mkNet f v (width f)) = mkAddr f v).
+  { unfold first_addr. cbn [n_fam n_base n_len]. rewrite N.sub_diag. change (2 ^ 0) with 1.
+    rewrite N.div_1_r, N.mul_1_r. reflexivity. }
+  rewrite Hf. cbn [base_addr n_fam n_base]. rewrite orb_diag. f_equal.
   apply existsb_absorb. intros t H.
   apply contains_iff in H. apply contains_iff.
   cbn [base_addr a_fam a_val n_fam n_base n_len] in *.
@@ -336,6 +362,28 @@ Theorem intersects_sound : forall tbl a,
   exists x, addr_ok x /\ contains a x = true /\ is_reserved tbl x = true.
 Proof. exact intersects_sound_aux. Qed.
 
+
+(* two spellings of one range get one answer *)
+Lemma same_range_contains : forall a b x, n_fam a = n_fam b -> n_len a = n_len b ->
+  contains a (base_addr b) = true -> contains a x = contains b x.
+Proof.
+  intros a b x Ff Fl H. apply contains_iff in H. cbn [base_addr a_fam a_val] in H. destruct H as [_ E].
+  unfold contains, prefix. rewrite <- Ff, <- Fl. rewrite E. reflexivity.
+Qed.
+
+Theorem intersects_spelling : forall tbl a b,
+  table_wf tbl = true -> table_closed tbl = true -> net_ok a -> net_ok b ->
+  n_fam a = n_fam b -> n_len a = n_len b -> contains a (base_addr b) = true ->
+  intersects tbl a = intersects tbl b.
+Proof.
+  intros tbl a b Hwf Hcl Ha Hb Ff Fl H.
+  assert (S : forall x, contains a x = contains b x) by (intro x; apply same_range_contains; assumption).
+  destruct (intersects tbl a) eqn:Ia; destruct (intersects tbl b) eqn:Ib; try reflexivity.
+  - destruct (intersects_sound_aux tbl a Hwf Ha Ia) as [x [Hx [Cx Rx]]].
+    rewrite S in Cx. rewrite (intersects_complete tbl b x Hwf Hcl Hb Hx Cx Rx) in Ib. discriminate.
+  - destruct (intersects_sound_aux tbl b Hwf Hb Ib) as [x [Hx [Cx Rx]]].
+    rewrite <- S in Cx. rewrite (intersects_complete tbl a x Hwf Hcl Ha Hx Cx Rx) in Ia. discriminate.
+Qed.
 
 (* ---- the three lints (SAN iPAddress, common name, name constraints) ---- *)
 Definition lint_ips (tbl : list net) (ips : list addr) : bool := existsb (is_reserved tbl) ips.      (* true = error *)
